@@ -48,8 +48,10 @@ pub enum Val {
     /// been called `advance` times (a partly consumed iterator is still the whole section)
     Tlvs { items: Vec<(u8, usize, u32)>, advance: usize },
     /// a payload type of the caller's own (`CustomP`): it assembles its bytes outside the writer - takes the buffer out of
-    /// the `Writer`, extends it, puts it back - and, with `scribble`, leaves junk in bytes 14..16 of what it found there
-    Custom { len: usize, seed: u32, scribble: bool },
+    /// the `Writer`, extends it, puts it back. `quirks` (histories only; 0 elsewhere): bit 0 - it leaves junk in bytes 14..16
+    /// of what it found in the buffer; bit 1 - it reports a wrong count (0) for what it appended; bit 2 - it is stateful: only
+    /// its first `write_to` appends the bytes, any further call appends a marker instead (a payload that drains a queue)
+    Custom { len: usize, seed: u32, quirks: u8 },
 }
 
 #[derive(Clone, Debug, PartialEq)]
@@ -126,7 +128,7 @@ impl Val {
             Val::Section { len, seed } => json!({"section": {"len": len, "seed": seed}}),
             Val::Type(ty) => json!({"type": enc::TYPE_CODES[*ty].0}),
             Val::Tlvs { items, advance } => json!({"tlvs": {"items": items.iter().map(|(k, l, s)| json!({"kind": k, "len": l, "seed": s})).collect::<Vec<_>>(), "advance": advance}}),
-            Val::Custom { len, seed, scribble } => json!({"custom": {"len": len, "seed": seed, "scribble": scribble}}),
+            Val::Custom { len, seed, quirks } => json!({"custom": {"len": len, "seed": seed, "quirks": quirks}}),
         }
     }
     pub fn from_json(v: &Value) -> Option<Val> {
@@ -167,7 +169,7 @@ impl Val {
         }
         if let Some(o) = v.get("custom") {
             let (len, seed) = ls(o)?;
-            return Some(Val::Custom { len, seed, scribble: o.get("scribble").and_then(|b| b.as_bool()).unwrap_or(false) });
+            return Some(Val::Custom { len, seed, quirks: o.get("quirks").and_then(|b| b.as_u64()).unwrap_or(0) as u8 });
         }
         if let Some(o) = v.get("tlvs") {
             let items: Option<Vec<(u8, usize, u32)>> = o
@@ -367,7 +369,7 @@ pub fn gen_addr(t: &mut Tape) -> RefAddr2 {
 
 pub fn gen_val(t: &mut Tape, big_per_mille: u32) -> Val {
     match t.weighted(&[8, 8, 4, 8, 6, 6, 4, 2, 4, 1]) {
-        9 => Val::Custom { len: gen_len(t, big_per_mille), seed: gen_seed(t), scribble: false },
+        9 => Val::Custom { len: gen_len(t, big_per_mille), seed: gen_seed(t), quirks: 0 },
         8 => {
             let n = t.usize_in(0, 4);
             let items: Vec<(u8, usize, u32)> = (0..n)
@@ -510,11 +512,11 @@ pub fn relate_explicit_lengths(t: &mut Tape, h: &mut History) {
     // (in histories, half of the custom payloads leave junk in the length field of the fixed part they find in the buffer)
     for op in h.ops.iter_mut() {
         match op {
-            Op::Payload { v: Val::Custom { scribble, .. }, .. } => *scribble = t.coin(),
+            Op::Payload { v: Val::Custom { quirks, .. }, .. } => *quirks = t.below(8) as u8,
             Op::Payloads { vs, .. } => {
                 for v in vs.iter_mut() {
-                    if let Val::Custom { scribble, .. } = v {
-                        *scribble = t.coin();
+                    if let Val::Custom { quirks, .. } = v {
+                        *quirks = t.below(8) as u8;
                     }
                 }
             }
@@ -534,9 +536,17 @@ pub fn relate_explicit_lengths(t: &mut Tape, h: &mut History) {
         Ctor::WithAddresses { addr, .. } => NEED[enc::family_code(addr) as usize],
     };
     let size_upto = |n: usize| -> usize { base + h.ops[..n].iter().flat_map(op_values).map(|v| ref_size(&v)).sum::<usize>() };
-    let v = match t.below(3) {
+    let swap16 = |x: usize| -> usize { ((x & 0xff) << 8) | ((x >> 8) & 0xff) };
+    let v = match t.below(6) {
         0 => size_upto(h.ops.len()),
         1 => size_upto(at),
+        // the byte-swapped image of one of those (a comparison in the wrong byte order takes the two for equal)
+        3 => swap16(size_upto(h.ops.len())),
+        4 => swap16(size_upto(at)),
+        5 => match &h.ops[sets[t.below(sets.len() as u32) as usize]] {
+            Op::SetLength(Some(x)) => swap16(*x as usize),
+            _ => 0x0100,
+        },
         _ => match &h.ops[sets[t.below(sets.len() as u32) as usize]] {
             Op::SetLength(Some(x)) => *x as usize,
             _ => 0,
@@ -667,7 +677,7 @@ fn retype(like: &Val, t: &mut Tape, big: u32) -> Val {
         Val::Section { .. } => Val::Section { len: gen_len(t, big), seed: gen_seed(t) },
         Val::Type(_) => Val::Type(t.below(12) as usize),
         Val::Tlvs { .. } => Val::Tlvs { items: vec![(t.byte(), t.usize_in(0, 9), gen_seed(t))], advance: t.usize_in(0, 2) },
-        Val::Custom { scribble, .. } => Val::Custom { len: gen_len(t, big), seed: gen_seed(t), scribble: *scribble },
+        Val::Custom { quirks, .. } => Val::Custom { len: gen_len(t, big), seed: gen_seed(t), quirks: *quirks },
     }
 }
 
@@ -781,18 +791,37 @@ impl<'a> WriteToHeader for AnyP<'a> {
 /// buffer out of the writer (`Writer: Default`), works on the plain `Vec`, and hands it back - all public API.
 pub struct CustomP<'a> {
     pub data: &'a [u8],
-    pub scribble: bool,
+    pub quirks: u8,
+    pub calls: std::cell::Cell<u32>,
+}
+impl<'a> CustomP<'a> {
+    pub fn new(data: &'a [u8], quirks: u8) -> Self {
+        CustomP { data, quirks, calls: std::cell::Cell::new(0) }
+    }
 }
 impl<'a> WriteToHeader for CustomP<'a> {
     fn write_to(&self, w: &mut Writer) -> io::Result<usize> {
+        let n = self.calls.get();
+        self.calls.set(n + 1);
+        if self.quirks & 4 != 0 && n > 0 {
+            // drained: a second call has nothing of the payload left to give
+            let mut bytes = std::mem::take(w).finish();
+            bytes.extend_from_slice(b"<called-again>");
+            *w = Writer::from(bytes);
+            return Ok(14);
+        }
         let mut bytes = std::mem::take(w).finish();
-        if self.scribble && bytes.len() >= 16 {
+        if self.quirks & 1 != 0 && bytes.len() >= 16 {
             // whatever it leaves in the length field of a fixed part it finds there is not its business: `build` states the length
             bytes[14] = 0xAB;
             bytes[15] = 0xCD;
         }
         bytes.extend_from_slice(self.data);
         *w = Writer::from(bytes);
+        if self.quirks & 2 != 0 {
+            // what the output contains is what counts, not what a payload claims
+            return Ok(0);
+        }
         Ok(self.data.len())
     }
 }
@@ -815,7 +844,7 @@ pub fn write_val(v: &Val, data: &[u8], w: &mut Writer) -> io::Result<usize> {
         Val::TupleType { ty, .. } => (TYPES[*ty], data).write_to(w),
         Val::Section { .. } => TypeLengthValues::from(data).write_to(w),
         Val::Type(ty) => TYPES[*ty].write_to(w),
-        Val::Custom { scribble, .. } => CustomP { data, scribble: *scribble }.write_to(w),
+        Val::Custom { quirks, .. } => CustomP::new(data, *quirks).write_to(w),
         Val::Tlvs { advance, .. } => advanced(data, *advance).write_to(w),
     }
 }
@@ -842,7 +871,7 @@ pub fn to_bytes_val(v: &Val, data: &[u8]) -> io::Result<Vec<u8>> {
         Val::TupleType { ty, .. } => (TYPES[*ty], data).to_bytes(),
         Val::Section { .. } => TypeLengthValues::from(data).to_bytes(),
         Val::Type(ty) => TYPES[*ty].to_bytes(),
-        Val::Custom { scribble, .. } => CustomP { data, scribble: *scribble }.to_bytes(),
+        Val::Custom { quirks, .. } => CustomP::new(data, *quirks).to_bytes(),
         Val::Tlvs { advance, .. } => advanced(data, *advance).to_bytes(),
     }
 }
@@ -912,8 +941,8 @@ fn payload(b: Builder, v: &Val, data: &[u8], by_ref: bool) -> io::Result<Builder
                 b.write_payload(it)
             }
         }
-        Val::Custom { scribble, .. } => {
-            let c = CustomP { data, scribble: *scribble };
+        Val::Custom { quirks, .. } => {
+            let c = CustomP::new(data, *quirks);
             if by_ref {
                 b.write_payload(&c)
             } else {
@@ -952,7 +981,7 @@ fn batch_native(b: Builder, vs: &[Val], datas: &[Vec<u8>]) -> io::Result<Builder
         Val::TupleType { .. } => b.write_payloads(vs.iter().zip(datas).map(|(v, d)| (TYPES[if let Val::TupleType { ty, .. } = v { *ty } else { 0 }], d.as_slice()))),
         Val::Section { .. } => b.write_payloads(datas.iter().map(|d| TypeLengthValues::from(d.as_slice()))),
         Val::Type(_) => b.write_payloads(vs.iter().map(|v| TYPES[if let Val::Type(t) = v { *t } else { 0 }]).collect::<Vec<_>>()),
-        Val::Custom { .. } => b.write_payloads(vs.iter().zip(datas).map(|(v, d)| CustomP { data: d.as_slice(), scribble: matches!(v, Val::Custom { scribble: true, .. }) })),
+        Val::Custom { .. } => b.write_payloads(vs.iter().zip(datas).map(|(v, d)| CustomP::new(d.as_slice(), if let Val::Custom { quirks, .. } = v { *quirks } else { 0 }))),
         Val::Tlvs { .. } => b.write_payloads(vs.iter().zip(datas).map(|(v, d)| advanced(d.as_slice(), if let Val::Tlvs { advance, .. } = v { *advance } else { 0 }))),
     }
 }
